@@ -29,6 +29,7 @@ import (
 	"net/url"
 	"sort"
 	"strings"
+	"sync"
 
 	"github.com/gobwas/httphead"
 	"github.com/gobwas/ws"
@@ -147,7 +148,9 @@ func drawTemplate(t *rapid.T, light bool) template {
 	kinds := plainKinds
 	if tp.flate() {
 		kinds = append(append([]string(nil), plainKinds...), flateKinds...)
-		kinds = append(kinds, flateKinds...)
+		if !light {
+			kinds = append(kinds, flateKinds...)
+		}
 	}
 	lo, hi := 2, 8
 	if light {
@@ -1029,11 +1032,21 @@ func flateDtor(r io.Reader) wsflate.Decompressor { return flate.NewReader(r) }
 // deflate is the peer's compressor: compress/flate, sync flush, tail stripped (RFC 7692 §7.2.1).
 func deflate(p []byte) []byte {
 	var b bytes.Buffer
-	fw, _ := flate.NewWriter(&b, 6)
+	fw, _ := peerCompressors.Get().(*flate.Writer)
+	if fw == nil {
+		fw, _ = flate.NewWriter(&b, 6)
+	} else {
+		fw.Reset(&b)
+	}
 	fw.Write(p)
 	fw.Flush()
+	peerCompressors.Put(fw)
 	return b.Bytes()[:b.Len()-4]
 }
+
+// the harness's own compressors are recycled (allocating one is the most
+// expensive thing a session does, in particular under the race detector)
+var peerCompressors sync.Pool
 
 // inflate is the peer's decompressor.
 func inflate(p []byte) ([]byte, error) {
